@@ -328,6 +328,11 @@ def session_specs(tier):
     add("a", "copy", "encoded", APP1, old=oldspec("lzma2", "encoded", M2), tag="#mixed")
     add("a", "copy", "raw", APP1, old=oldspec("lzma2", "encoded", M2), tag="#mixed-raw")
     add("a", "deflate", "encoded", APP1, old=oldspec("copy", "raw", M2), tag="#mixed-enc")
+    # a session that adds no packed data: the new packed header is written exactly where the old one was, so a torn write
+    # mixes the old and the new encoded header byte by byte (only the CRC of the plain header can reject such a mix)
+    add("a", "copy", "encoded", [("e", b"")], old=oldspec("copy", "encoded", M2), tag="#empty-only")
+    add("a", "copy", "encoded", [("e", b"")], old=oldspec("copy", "encoded", M3), tag="#empty-only3")
+    add("a", "lzma2", "encoded", [("e", b"")], old=oldspec("lzma2", "encoded", M2), tag="#empty-only-lzma2")
     # encryption (key derivation makes every accepted-then-decrypted image expensive: sampled)
     smp = 110 if tier == "quick" else 1500
     add("w", "lzma2+aes", "encoded", M1, password="pw", sample=smp)
